@@ -12,7 +12,13 @@ from families import c03 as _c03
 PROPERTY = "C06"
 FAMILY = "load"
 LEAN_MODULE = "ElfioVerif.Props.C06"
-THEOREMS = ["ElfioVerif.C06.save_twice_witness", "ElfioVerif.C06.save_twice_witness_offsets", "ElfioVerif.C06.save_twice_witness_byte"]
+THEOREMS = ["ElfioVerif.C06.save_twice_witness",
+            "ElfioVerif.C06.save_twice_witness_offsets",
+            "ElfioVerif.C06.save_twice_witness_byte",
+            "ElfioVerif.C06.saveHdr0_idem",
+            "ElfioVerif.C06.save_noseg_eq",
+            "ElfioVerif.C06.save_twice_no_segments",
+            "ElfioVerif.C06.save_twice_no_segments_bytes"]
 SITES = ["save_", "lsws", "lst_", "lseg", "wsd"]
 RULE = ("writer-domain programs x 4 configurations: save, save again, reload (eager or lazy), save; plus "
         "well-formed bundled examples: load, save, reload, save; non-trivial = first save succeeded and the "
